@@ -193,6 +193,13 @@ class Fn:
             if isinstance(s, ast.Slice) and s.upper is None and s.step is None and s.lower is not None and self.typeof(e.value) == "str":
                 return "(drop %s %s)" % (self.expr(s.lower), self.expr(e.value))
             bad(e, "subscript")
+        if isinstance(e, ast.Compare) and len(e.ops) == 2 and all(isinstance(o, (ast.Lt, ast.LtE)) for o in e.ops) \
+           and self.typeof(e.comparators[0]) == "Z":
+            zc = lambda x: ("%d%%Z" % x.value) if isinstance(x, ast.Constant) and isinstance(x.value, int) else self.expr(x)
+            a, b, c = zc(e.left), zc(e.comparators[0]), zc(e.comparators[1])
+            o1 = "<=?" if isinstance(e.ops[0], ast.LtE) else "<?"
+            o2 = "<=?" if isinstance(e.ops[1], ast.LtE) else "<?"
+            return "((%s %s %s)%%Z && (%s %s %s)%%Z)" % (a, o1, b, b, o2, c)
         if isinstance(e, ast.Compare):
             if len(e.ops) != 1: bad(e, "chained comparison")
             op, l, r = e.ops[0], e.left, e.comparators[0]
@@ -535,6 +542,13 @@ SPECS = [
          types={"redirect_url": "str"},
          raise_kinds={"Redirect loop": "loop", "Maximum redirects": "too_many", "Redirect response missing": "missing_url"},
          drop_none_default=["redirect_chain"]),
+    # protocol/status.py is_redirect, protocol/response.py GeminiResponse.is_redirect / redirect_url: what the redirect walk reads
+    dict(file="protocol/status.py", cls=None, func="is_redirect", name="gen_status_is_redirect", params=[("status", "Z")]),
+    dict(file="protocol/response.py", cls="GeminiResponse", func="is_redirect", name="gen_response_is_redirect",
+         params=[("self_status", "Z")], attrs={"self.status": ("self_status", "Z")}, calls={"is_redirect": ("gen_status_is_redirect", "bool")}),
+    dict(file="protocol/response.py", cls="GeminiResponse", func="redirect_url", name="gen_response_redirect_url", ret_opt="wrap",
+         params=[("self_status", "Z"), ("self_meta", "str")], attrs={"self.meta": ("self_meta", "str")},
+         calls={"self.is_redirect": ("(gen_response_is_redirect self_status)", "bool")}),
     dict(file="server/middleware.py", cls="MiddlewareChain", func="process_request", name="gen_chain_process", tuple_opt_str=False,
          params=[("self_middlewares", ("list", "(str -> str -> option str -> bool * option str)")), ("request_url", "str"), ("client_ip", "str"),
                  ("client_cert_fingerprint", ("opt", "str"))],
